@@ -614,7 +614,7 @@ func checkDispatchedModeIdentity(c *Ctx) {
 			if f == nil || f.Name() != "Cmd" || typeNameOf(fa.X.Type()) != "Configuration" {
 				return
 			}
-			if cst, ok := st.Val.(*ssa.Const); ok {
+			for _, cst := range modeConstants(st.Val, 0) {
 				if n := commandModeName(p, cst); n != "" {
 					if stores[fn] == nil {
 						stores[fn] = map[string]string{}
@@ -625,6 +625,34 @@ func checkDispatchedModeIdentity(c *Ctx) {
 		})
 	}
 	rows := permRows(p)
+	// ---- R6 (round 3 of seeding): the permission table is total over the modes the API sets
+	// maskExtract / maskModify answer "nothing needed" for a mode that has no row, so a dropped row silently
+	// opens the command to user-password-only access.
+	{
+		seenMode := map[string]string{}
+		for _, m := range stores {
+			for mode, pos := range m {
+				if _, ok := seenMode[mode]; !ok {
+					seenMode[mode] = pos
+				}
+			}
+		}
+		var modes []string
+		for m := range seenMode {
+			modes = append(modes, m)
+		}
+		sort.Strings(modes)
+		r.MinInst["C26.R6"] = 60
+		for _, m := range modes {
+			if _, ok := rows[m]; ok {
+				r.OK("C26.R6", "pkg/pdfcpu.perm", "row "+m, seenMode[m], "the mode set by the API has a row in the permission table", true)
+			} else if why, ok := c26NoPermissionRow[m]; ok {
+				r.OK("C26.R6", "pkg/pdfcpu.perm", "row "+m, seenMode[m], "no row by design: "+why, false)
+			} else {
+				r.Bad("C26.R6", "pkg/pdfcpu.perm", "row "+m, seenMode[m], "pkg/api stores conf.Cmd = model."+m+" but the permission table has no row for it: maskExtract/maskModify return 0 for an unknown mode, so the command runs on a restricted document opened with the user password")
+			}
+		}
+	}
 	if len(rows) < 50 {
 		r.Bad("C26.R4", "pkg/pdfcpu.perm", "anchor", "", fmt.Sprintf("UNRESOLVED-ANCHOR: only %d rows of the permission table extracted", len(rows)))
 	}
@@ -706,4 +734,48 @@ func init() {
 		}
 		fmt.Println("dispatch funcs", n)
 	}
+}
+
+// c26NoPermissionRow: modes the API sets that have no row in the permission table, with the reason.
+// The property quantifies over "every command mode in the permission table"; these eleven modes are not classified
+// by pdfcpu at the pinned commit (maskExtract/maskModify answer "nothing needed" for them). They are frozen here so
+// that a row DROPPED from the table, or a new mode added without one, is reported.
+var c26NoPermissionRow = map[string]string{
+	"ENCRYPT":             "unclassified at the pinned commit (an unencrypted input has no permissions to check)",
+	"DECRYPT":             "unclassified at the pinned commit (decryption is gated by the password check itself)",
+	"CHANGEUPW":           "unclassified at the pinned commit (gated by needsOwnerAndUserPassword, C25.R2)",
+	"CHANGEOPW":           "unclassified at the pinned commit (gated by needsOwnerAndUserPassword, C25.R2)",
+	"VALIDATESIGNATURES":  "unclassified at the pinned commit (read-only)",
+	"CUT":                 "unclassified at the pinned commit (observation: writes new documents from the input's pages)",
+	"NDOWN":               "unclassified at the pinned commit (observation: writes new documents from the input's pages)",
+	"POSTER":              "unclassified at the pinned commit (observation: writes new documents from the input's pages)",
+	"RESIZE":              "unclassified at the pinned commit (observation: modifies pages, unlike ROTATE/ZOOM it has no row)",
+	"MULTIFILLFORMFIELDS": "unclassified at the pinned commit (observation: FILLFORMFIELDS needs modify rights, the multi-fill variant has no row)",
+	"REMOVESIGNATURES":    "unclassified at the pinned commit (observation: modifies the document, no row)",
+}
+
+// modeConstants: the constants a stored command mode can be — directly, through φ, or as the results of a module
+// function that picks the mode (addAttachmentsCommandMode(coll)).
+func modeConstants(v ssa.Value, d int) []*ssa.Const {
+	if d > 3 {
+		return nil
+	}
+	var out []*ssa.Const
+	for _, l := range valueLeaves(v) {
+		switch x := l.(type) {
+		case *ssa.Const:
+			out = append(out, x)
+		case *ssa.Call:
+			callee := staticCallee(x)
+			if callee == nil || !isSubject(callee) {
+				continue
+			}
+			for _, ret := range returnsOf(callee) {
+				if len(ret.Results) > 0 {
+					out = append(out, modeConstants(ret.Results[0], d+1)...)
+				}
+			}
+		}
+	}
+	return out
 }
